@@ -85,8 +85,17 @@ def _worker(args):
         kind = desc[0] if isinstance(desc, (tuple, list)) and desc and isinstance(desc[0], str) else "shard"
         r.counters["cpu_s:" + kind] = r.counters.get("cpu_s:" + kind, 0) + round(time.time() - t0, 2)
         return r
-    except Exception:
+    except Exception as e:
         s = Shard()
+        tb = traceback.extract_tb(e.__traceback__)
+        inner = tb[-1] if tb else None
+        if inner is not None and "/ImageD11/" in inner.filename and "/verif/vt/" not in inner.filename:
+            # the exception was raised INSIDE the library on a call the harness considers well formed (every check runs on inputs
+            # of its property's domain, where no property allows an exception): a violation, not a harness failure
+            s.violation("library-raised:%s:%s" % (type(e).__name__, inner.name), {"shard": jsonable(desc)},
+                        {"error": str(e)[:300], "where": "%s:%d" % (inner.filename.split("/ImageD11/")[-1], inner.lineno),
+                         "traceback_tail": traceback.format_exc()[-1500:]})
+            return s
         s.notes.append("ENGINE-ERROR in shard %r:\n%s" % (desc, traceback.format_exc()))
         s.counters["engine_errors"] = 1
         return s
@@ -372,6 +381,31 @@ def validate_evidence(path):
     return True
 
 
+def _tuplify(x):
+    return tuple(_tuplify(v) for v in x) if isinstance(x, list) else x
+
+
+def _replay_shard_child(modname, desc, q):
+    r = _worker((modname, _tuplify(desc)))
+    q.put({"violations": sorted(v["key"] for v in r.violations), "engine_errors": r.counters.get("engine_errors", 0)})
+
+
+def _replay_shard(modname, desc):
+    import multiprocessing as mp
+    ctx = mp.get_context("spawn")
+    q = ctx.Queue()
+    p = ctx.Process(target=_replay_shard_child, args=(modname, desc, q))
+    p.start()
+    p.join(3600)
+    if p.is_alive():
+        p.kill()
+        return False, {"shard": desc, "outcome": "no result within 3600 s"}
+    if p.exitcode != 0 or q.empty():
+        return False, {"shard": desc, "outcome": "child process died", "exitcode": p.exitcode}
+    out = q.get()
+    return (not out["violations"] and not out["engine_errors"]), dict(out, shard=desc)
+
+
 def run_replay(pid, path):
     mod = importlib.import_module("vt.props." + pid.lower())
     with open(path) as fh:
@@ -379,8 +413,13 @@ def run_replay(pid, path):
     if not hasattr(mod, "replay"):
         print("replay not implemented for", pid)
         return 2
-    ok1, obs1 = mod.replay(body["case"])
-    ok2, obs2 = mod.replay(body["case"])
+    if isinstance(body["case"], dict) and set(body["case"]) == {"shard"}:
+        # a whole shard failed (the library raised, or the worker process died): run that shard again in a child process
+        ok1, obs1 = _replay_shard(mod.__name__, body["case"]["shard"])
+        ok2, obs2 = _replay_shard(mod.__name__, body["case"]["shard"])
+    else:
+        ok1, obs1 = mod.replay(body["case"])
+        ok2, obs2 = mod.replay(body["case"])
     if json.dumps(jsonable(obs1), sort_keys=True) != json.dumps(jsonable(obs2), sort_keys=True):
         print("ENGINE-ERROR: replay is not deterministic")
         return 2
